@@ -16,8 +16,3 @@ def c25_nonliteral_attribute_raises(case, what):
         "generate() raises on a model whose flat AST holds only nodes the backend handles "
         "(start / value is not a plain literal)")
 
-
-@known_predicate
-def c25_arrays_exported_as_scalars(case, what):
-    return bool(case.get("facts", {}).get("arrays")) and what.startswith(
-        "XML does not mirror the flat model: array dimensions / subscripts are lost")
